@@ -13,6 +13,15 @@ CHECKS = {
     "C02": dict(cat="exploration", tech="history + executable model: recording estimator log of brew() replayed against a sequential k-fold CV model",
                 text="Each observed brew() call is judged from what every fold model was trained on and what it scored (unique row ids); reach comes from folds/files/key/cap/worker/learner/format diversity with seeded delays.",
                 note="recording estimator is at the public estimator protocol boundary; 'any estimator' sampled by five kinds", ref="5/C02"),
+    "C03": dict(cat="exploration", tech="differential monitor on result files of assign_confidence / CLI / brew_rollup: rows traced to input PSMs by unique id, dictionary group-by competition model (tie tolerant), q-values recomputed on the retained rows",
+                text="Output files of the real entry points are judged per level against an independent group-by model over dedup/rollup/decoy/collection/prefix/format/chunk-size combinations.",
+                note="higher levels judged relative to the PSM rows actually retained; PEP column judged in C06", ref="5/C03"),
+    "C07": dict(cat="exploration", tech="history + model: best single feature recomputed on each fold model's recorded training rows; accepted genuine targets under returned scores compared; direction metamorphic check (x, desc=False) vs (-x, desc=True)",
+                text="brew() is observed with estimators that learn, cannot learn, invert or memorise, over label encodings and feature directions; fallback or non-inferiority is decided from recorded training rows and ground-truth labels.",
+                note="train_fdr = test_fdr; genuine targets from generator ground truth", ref="5/C07"),
+    "C12": dict(cat="exploration", tech="history + model: every fit event of Model.fit replayed against the training-loop model (positives = accepted targets under the previous outputs, negatives = all decoys); metamorphic row/shuffle/column permutation and save/load",
+                text="Direct observation of what the estimator is fed in each iteration, for shuffled, unshuffled and row-permuted variants.",
+                note="start feature/direction read from the fitted model (C07 judges that choice)", ref="5/C12"),
     "C06": dict(cat="exploration", tech="invariant monitor (range, monotonicity, tie equality, permutation equivariance) on PEP / q-value estimators and on result-file PEP columns",
                 text="Every selectable PEP and q-value algorithm is run on unsorted mixtures and on permutations of them; output files of assign_confidence are checked per algorithm.",
                 note="no reference PEP values asserted; equivariance of interpolating q-estimators demanded on tie-free input only", ref="5/C06"),
